@@ -85,6 +85,28 @@ def h_roundtrip(ctx, width, keys, vk='u8', route='parse', key_form='int', twin=N
     ctx.observe('root bits', cell.bits.to01())
 
 
+def h_two_maps(ctx, width, keys1, keys2):
+    """two maps built one after the other in the same process do not influence each other (and a map created
+    afterwards is empty)"""
+    v1 = {k: ctx.uint(f'a{k}', 8) for k in keys1}
+    v2 = {k: ctx.uint(f'b{k}', 8) for k in keys2}
+    m1 = HashMap(width).with_uint_values(8)
+    for k in keys1:
+        m1.set_int_key(k, v1[k])
+    c1 = m1.serialize()
+    m2 = HashMap(width).with_uint_values(8)
+    for k in keys2:
+        m2.set_int_key(k, v2[k])
+    c2 = m2.serialize()
+    for cell, vals, tag in ((c2, v2, 'second'), (c1, v1, 'first'), (m1.serialize(), v1, 'first again')):
+        res = HashMap.parse(cell.begin_parse(), width, None, lambda s: s.load_uint(8))
+        got = list(res.items())
+        ctx.require(len(got) == len(vals), f'two maps: the {tag} map has exactly its own pairs')
+        for (gk, gv), k in zip(got, sorted(vals)):
+            ctx.require(And(gk == k, gv == vals[k]), f'two maps: pairs of the {tag} map')
+    ctx.require(HashMap(width).with_uint_values(8).serialize() is None, 'two maps: a new map is empty')
+
+
 def h_empty(ctx, width):
     hm = HashMap(width).with_uint_values(8)
     ctx.require(hm.serialize() is None, 'empty map is no cell')
@@ -214,6 +236,9 @@ def instances(tier, seed):
     routes = ['parse', 'load_dict', 'preload_dict', 'from_cell', 'load_hashmap']
     vks = ['u8', 'u64', 'i16', 'coins', 'addr', 'cell']
     n = 0
+    # process-wide state shows up everywhere once present: the scenarios that pin it down run first
+    yield 'h_two_maps', dict(width=4, keys1=[1, 7, 12], keys2=[2, 3, 8])
+    yield 'h_two_maps', dict(width=8, keys1=[255], keys2=[0, 255])
     for width in (1, 2, 3):
         for ks in key_sets(width):
             for o in orders(ks, n):
@@ -239,6 +264,7 @@ def instances(tier, seed):
         yield 'h_roundtrip', dict(width=width, keys=[0, top, top - 1, 1 << (width - 1), 1, 1 << (width // 2)], vk='u8')
     for width in (1, 2, 8, 267, 1023):
         yield 'h_empty', dict(width=width)
+
     for form in ('bytes', 'str', 'address', 'hashed1', 'hashed9'):
         yield 'h_keyforms', dict(form=form)
     for width in ((1, 2, 3, 4) if tier == 'quick' else (1, 2, 3, 4, 5, 6, 7)):
